@@ -118,6 +118,16 @@ def run_case(ctx, cost, labels, blank, tag):
         res, err = None, e
     except Exception as e:  # noqa
         ctx.fail("force_align_wrong_exception", "%s: %s; " % (type(e).__name__, e) + desc())
+    if has_blank or not struct_ok:
+        # the per-character positions are derived from the alignment: no alignment, no positions
+        try:
+            pos_res = FA.align_text(cost.copy(), np.asarray(labels), blank)
+            pos_err = None
+        except ValueError as e:
+            pos_res, pos_err = None, e
+        except Exception as e:  # noqa
+            ctx.fail("align_text_wrong_exception", "%s: %s; " % (type(e).__name__, e) + desc())
+        ctx.check(pos_err is not None, "impossible_alignment_not_reported_by_align_text", lambda: "returned %r; " % (pos_res,) + desc())
     if has_blank:
         ctx.event("labels_contain_blank")
         ctx.check(err is not None, "blank_in_labels_not_reported", lambda: "returned %r; " % (res,) + desc())
